@@ -837,6 +837,12 @@ def gen_C09(r, n, thorough=False):
                 t = tf_in(r, e, e + 1)
             for ref in ('TwoFloat', 'rTwoFloat'):
                 c.add('convert.impl_TryFrom_%s_for_%s.try_from %s' % (ref, ty, w2(t)), kind='try', ty=ty, t=t)
+            # the num_traits routes must agree with TryFrom / From (they forward to them)
+            c.add('num_integration.impl_ToPrimitive_for_TwoFloat.to_%s %s' % (ty, w2(t)), kind='toprim', ty=ty, t=t)
+            if ty in ('i64', 'u64'):
+                c.add('num_integration.impl_ToPrimitive_for_TwoFloat.to_%ssize %s' % (ty[0], w2(t)), kind='toprim', ty=ty, t=t)
+        for v in vals[:max(50, n)]:
+            c.add('num_integration.impl_FromPrimitive_for_TwoFloat.from_%s %d' % (ty, v), kind='from', ty=ty, v=v)
     for _ in range(n):
         t = fp.any_tf(r)
         c.add('convert.impl_From_TwoFloat_for_f64.from %s' % w2(t), kind='tof64', t=t)
@@ -875,6 +881,15 @@ def chk_C09(c, ans):
             want = 'Ok(%d)' % tv if lo <= tv <= hi else 'Err'
             if a != want:
                 out.append(fail(i, 'try_from_ok_iff', 'x=(%s,%s) got %s want %s' % (hx(t[0]), hx(t[1]), a, want)))
+        elif k == 'toprim':
+            t = m['t']
+            lo, hi = fp.INT_RANGES[m['ty']]
+            if not fp.is_valid(*t):
+                continue
+            tv = int(V(*t))
+            want = 'Some(%d)' % tv if lo <= tv <= hi else 'None'
+            if a != want:
+                out.append(fail(i, 'to_primitive_eq_try_from', 'x=(%s,%s) got %s want %s' % (hx(t[0]), hx(t[1]), a, want)))
         elif k == 'tof64':
             if a != hx(m['t'][0]):
                 out.append(fail(i, 'to_f64_hi', a))
@@ -990,6 +1005,36 @@ def gen_C01(r, n, pool=None):
         for ln, m in zip(sub.lines, sub.meta):
             if m['kind'] == 'from':
                 c.add(ln, op=ln.split()[0])
+        # results at the subnormal edge: operands whose square / cube / 4th power / product has magnitude 2^-1080 .. 2^-940, single-word
+        # operands (low word exactly 0) included — where an un-renormalised error term rounds onto a half-ulp tie
+        def edge_tf(lo_e, hi_e):
+            e = r.rng(lo_e, hi_e)
+            if r.below(2):
+                return (fp.mant_exp(r, e) * r.choice([1.0, -1.0]), 0.0)
+            return tf_in(r, e, e + 1)
+        bands = {2: (-545, -468), 3: (-365, -310), 4: (-275, -232), 5: (-220, -185)}
+        for e in ops:
+            a = e.get('args') or []
+            if e.get('const') or not a or a[0] != 'tf':
+                continue
+            for _ in range(max(3, per // 2)):
+                if len(a) == 2 and a[1] in fp.INT_RANGES:
+                    nn = r.choice([2, 2, 2, 3, 4, 5])
+                    ln_ = '%s %s %d' % (e['name'], w2(edge_tf(*bands[nn])), nn)
+                elif a == ['tf']:
+                    ln_ = '%s %s' % (e['name'], w2(edge_tf(*bands[r.choice([2, 2, 3])])))
+                elif a == ['tf', 'tf']:
+                    x = edge_tf(-560, -460)
+                    e2 = r.rng(-1080, -940) - (math.frexp(x[0])[1] - 1)
+                    ln_ = '%s %s %s' % (e['name'], w2(x), w2(edge_tf(max(-1000, e2), max(-1000, e2) + 1)))
+                elif a == ['tf', 'f64']:
+                    x = edge_tf(-560, -460)
+                    e2 = r.rng(-1080, -940) - (math.frexp(x[0])[1] - 1)
+                    ln_ = '%s %s %s' % (e['name'], w2(x), hx(fp.mant_exp(r, max(-1000, e2))))
+                else:
+                    continue
+                if c01_in_domain(ln_):
+                    c.add(ln_, op=e['name'])
         # checked construction from arbitrary word pairs (threshold grid of C07): whatever is accepted must be valid
         sub = gen_C07(r, max(50, n // 40))
         for ln, m in zip(sub.lines, sub.meta):
@@ -1304,6 +1349,27 @@ def gen_C11(r, n):
             c.add(e['name'], kind='const'); continue
         for _ in range(per):
             c.add(corr.gen_case(e, r, valid_only=(r.below(5) > 0)), kind='generic')
+    # ties and grid points: half-integers, quarter-integers, integers and powers of two (with and without a tiny low word) —
+    # where two cfg-selected rounding helpers (round half away / half even, floor vs trunc …) would part company
+    def special_q():
+        q = Fr(r.rng(-4200, 4200), r.choice([1, 2, 2, 4, 8]))
+        if r.below(4) == 0:
+            q *= Fr(2) ** r.rng(-12, 12)
+        return q
+    def special_tf():
+        q = special_q()
+        if q != 0 and r.below(2):
+            q += abs(q) * Fr(r.choice([1, -1]), 2 ** r.rng(60, 110))
+        return tf_of_fr(q)
+    for e in ents:
+        a = e.get('args') or []
+        if e.get('const') or not a or any(k not in ('tf', 'f64') for k in a):
+            continue
+        for _ in range(max(4, per)):
+            ws = [e['name']]
+            for k in a:
+                ws.append(w2(special_tf()) if k == 'tf' else hx(float(special_q())))
+            c.add(' '.join(ws), kind='grid')
     # fma-focused: the only cfg-selected primitive.  2Prod and the operator kernels call fma(a, b, c) with
     # c = -RN(ab) (error term: exact, subnormal, double-rounding prone) and c = a previous error term.
     for _ in range(n):
@@ -2062,6 +2128,12 @@ def gen_C18(r, n):
         lo = tf_of_fr(Fr(r.rng(-2**30, 2**30 - 1), 2**30) * r.choice([1, 2**r.rng(0, 20)]))
         if V(*lo) < 1:
             c.add('TwoFloat.acosh %s' % w2(lo), kind='dom', x=lo)
+        # domain errors over the whole magnitude range, two-word arguments included (for x below about -2^52 the rounding error of
+        # sqrt(x*x - 1) exceeds x + sqrt(x*x - 1) = -1/(2|x|): acosh once returned a finite value there)
+        c.add('TwoFloat.acosh %s' % w2(log_uniform_tf(r, -1000, 1000, sign=-1)), kind='dom')
+        c.add('TwoFloat.acosh %s' % w2(log_uniform_tf(r, 45, 120, sign=-1)), kind='dom')
+        c.add('TwoFloat.acosh %s' % w2(log_uniform_tf(r, -1000, -1, sign=1)), kind='dom')
+        c.add('TwoFloat.atanh %s' % w2(log_uniform_tf(r, 1, 1000, sign=s)), kind='dom')
         big = tf_of_fr((1 + abs(Fr(r.rng(0, 2**30), 2 ** r.rng(0, 40)))) * s)
         c.add('TwoFloat.atanh %s' % w2(big), kind='dom', x=big)
     for fn in ('sinh', 'tanh', 'asinh', 'atanh'):
@@ -2107,7 +2179,10 @@ def corpus_unary(line):
     w = line.split()
     fn = w[0].split('.')[-1]
     if len(w) == 3:
-        return dict(kind=fn, x=(unhx(w[1]), unhx(w[2])))
+        x = (unhx(w[1]), unhx(w[2]))
+        if fn == 'acosh' and fp.isfin(x[0]) and V(*x) < 1:
+            return dict(kind='dom', x=x)
+        return dict(kind=fn, x=x)
     if len(w) == 5 and fn == 'powf':
         x, y = (unhx(w[1]), unhx(w[2])), (unhx(w[3]), unhx(w[4]))
         return dict(kind='powf_neg_int' if x[0] < 0 else 'powf', x=x, y=y)
@@ -2164,7 +2239,14 @@ def gen_C20(r, n):
                'de_map 0', 'de_map 2 hi %s hi %s' % (hx(t[0]), hx(t[0])), 'de_map 3 hi %s lo %s lo %s' % (hx(t[0]), hx(t[1]), hx(t[1])),
                'de_map 3 hi %s lo %s extra %s' % (hx(t[0]), hx(t[1]), hx(0.0)), 'de_map 2 high %s lo %s' % (hx(t[0]), hx(t[1])),
                'de_map 3 lo %s lo %s hi %s' % (hx(t[1]), hx(t[1]), hx(t[0]))]
+        # duplicates / shapes whose FIRST value is a special word (NaN, infinities, zeros): a sentinel-based visitor would miss them
+        sp = hx(r.choice([float('nan'), float('inf'), float('-inf'), 0.0, -0.0]))
+        bad += ['de_map 3 hi %s hi %s lo %s' % (sp, hx(t[0]), hx(t[1])), 'de_map 3 lo %s hi %s lo %s' % (sp, hx(t[0]), hx(t[1])),
+                'de_map 3 hi %s lo %s hi %s' % (sp, hx(t[1]), hx(t[0])), 'de_map 3 lo %s lo %s hi %s' % (sp, hx(t[1]), hx(t[0])),
+                'de_map 3 hi %s lo %s lo %s' % (hx(t[0]), sp, hx(t[1])), 'de_map 1 hi %s' % sp, 'de_map 1 lo %s' % sp,
+                'de_seq 3 %s %s %s' % (sp, hx(t[0]), hx(t[1])), 'de_seq 1 %s' % sp]
         c.add(r.choice(bad), kind='de', t=t, want='err')
+        c.add(r.choice(bad[-9:]), kind='de', t=t, want='err')
     return c
 
 def chk_C20(c, ans):
